@@ -200,8 +200,10 @@ def _work(case):
 def run(tier, seed):
     common.build_helpers()
     cicada = common.build_cicada("debug")
-    harness = common.build_harness()
+    harness, why_not = common.try_build_harness()
     rep = Report("C20", tier, seed)
+    if harness is None:
+        rep.inconc("harness: the in-process harness did not build, in-process layer not run (%s)" % why_not)
     thorough = tier == "thorough"
     rep.rule = ("pty: directories of 1..12 generated entries (names of 1..6 symbols over the special alphabet incl. blank, both "
                 "quotes, $ * { } ~ # | & ; < > ( ) \\ ! ? [ ] ` , ^ = %%, non-ASCII; a quarter are directories), one entry "
@@ -216,8 +218,9 @@ def run(tier, seed):
     n = common.NPROC
     scratch = common.mkscratch("c20l")
     maxlen = 3 if thorough else 2
-    jobs = [common.FileProc([harness, "c20", str(maxlen), str(i), str(n), os.path.join(scratch, "d%d" % i)]) for i in range(n)]
-    jobs.append(common.FileProc([harness, "c20cand", os.path.join(scratch, "cand")]))
+    jobs = [common.FileProc([harness, "c20", str(maxlen), str(i), str(n), os.path.join(scratch, "d%d" % i)]) for i in range(n if harness else 0)]
+    if harness:
+        jobs.append(common.FileProc([harness, "c20cand", os.path.join(scratch, "cand")]))
     inproc = 0
     untypable = 0
     for p in jobs:
